@@ -17,6 +17,10 @@ import (
 func positiveControls(c *Ctx, verif, repo, id string, d *PropDef) {
 	dirs, _ := filepath.Glob(filepath.Join(verif, "seeded", id, "*", "patch.diff"))
 	sort.Strings(dirs)
+	// hand-made controls for rules no seeded change exercises (tools/hand_controls.sh)
+	hand, _ := filepath.Glob(filepath.Join(verif, "controls", id+"-*.diff"))
+	sort.Strings(hand)
+	dirs = append(dirs, hand...)
 	if len(dirs) == 0 {
 		c.Notes = append(c.Notes, "no positive controls registered for this property")
 		return
@@ -30,6 +34,9 @@ func positiveControls(c *Ctx, verif, repo, id string, d *PropDef) {
 	ran, fired, skipped := 0, 0, 0
 	for _, patch := range dirs {
 		name := filepath.Base(filepath.Dir(patch))
+		if strings.HasSuffix(patch, ".diff") && filepath.Base(patch) != "patch.diff" {
+			name = "hand/" + strings.TrimSuffix(filepath.Base(patch), ".diff")
+		}
 		tmp, err := os.MkdirTemp("", "ebu-control-")
 		if err != nil {
 			c.Notes = append(c.Notes, "positive control "+name+": cannot create scratch dir")
